@@ -169,7 +169,7 @@ net = rxn.net_stoich(keys)
 ion = 1
 for k_, nu in zip(keys, net):
     if k_ != solid: ion = ion * d[keys.index(k_)] ** nu
-pv = np.array([Fraction(1, 7 + i) for i in range(len(keys))] + list(Kv), dtype=object)   # initial concentrations (different from x), constants
+pv = np.array(list(%(p0)s) + list(Kv), dtype=object)   # initial concentrations (different from x), constants
 fw = es._fw_cond_factory(ri)(xv, pv)
 expect = (ion > Kv[ri] * Fraction(1 + 1e-14)) if net[si] < 0 else (ion * Fraction(1 + 1e-14) < Kv[ri])
 if bool(fw) != bool(expect): bad.append("fw_cond = %%s but quotient of the dissolved state %%s vs K %%s" %% (fw, ion, Kv[ri]))
@@ -258,7 +258,7 @@ def task_precip(systems):
             res["violations"].append(dict(key="precip:%s" % p.kind, soft=wrapper_exc(p.value),
                                           desc="%s x=%s K=%s -> %r" % (eq_strs, concretize(m, x), concretize(m, Ks), p.value),
                                           replay_src=REPLAY_PRECIP % dict(eqs=eq_strs, x=pyrepr(dict(zip(keys, concretize(m, x)))),
-                                                                          K=pyrepr(concretize(m, Ks)))))
+                                                                          K=pyrepr(concretize(m, Ks)), p0=pyrepr(concretize(m, pvec[:n])))))
         if tw is None:
             ot = explore_and_prove(fn, assum, lambda p: goal(p, True), max_paths=5000, deadline_s=60, max_fail=1)
             tw = "violated" if ot.failed else "passed"
